@@ -31,7 +31,7 @@ PROPS = {
         explanation='theorems over all histories (Props.C09: every disclosed key belongs to a retired pair that can never be accepted under again; used keys are queued when their pair retires and the next data message carries the whole queue); Go oracle recomputes the receiving MAC keys of the discloser window from the real DH keys at every outgoing data message and tracks keys used to accept messages until disclosed',
         assumptions=['the MAC key of a pair is identified by the pair (same DH keys within a session)']),
     'C19': dict(
-        module='Props.C19', level='proof',
+        module='Props.C19', extra_modules=['Props.C19Api'], level='proof',
         profiles=dict(quick=[('sched', 12, 1), ('mem', 5, 1)], thorough=[('sched', 80, 8), ('life', 150, 4), ('mem', 60, 4)]),
         explanation='theorems over all histories (Props.C19: at most 4 counters and 4 MAC-history entries, reveal queue at most 3 keys per message accepted since the last send and emptied by each send); Go oracle measures counters, MAC history, reveal queue, resend queue, injections and the reveal field of every emitted message along long runs',
         assumptions=['session-wide constant for the reveal queue is a two-party fact, measured not proved', 'heap size beyond the modelled lists is not measured here (see C08)']),
@@ -39,7 +39,7 @@ PROPS = {
         module='Props.C15', level='proof',
         profiles=dict(quick=[('tags', 40, 1), ('reject', 60, 1)], thorough=[('tags', 200, 6), ('reject', 400, 6)]),
         explanation='exact decision table of verifyInstanceTags and own-tag generation for all inputs and all randomness (Props.C15); tied to otrv3.go/instance_tags.go by differential runs over the 7x7 tag grid on several message kinds and fragments, before and after binding; Go oracle: foreign/malformed traffic changes nothing and the genuine peer still gets through; ExtractInstanceTags compared with what the sender wrote',
-        assumptions=['ExtractInstanceTags is modelled and compared differentially, its theorem is the header round trip only']),
+        assumptions=['ExtractInstanceTags is modelled and compared differentially, its theorem is the header round trip only', 'known finding: InitializeInstanceTag accepts a preset tag below 0x100 (test-pinned)']),
     'C16': dict(
         module='Props.C16', level='proof',
         profiles=dict(quick=[('policy', 500, 1)], thorough=[('policy', 4600, 2), ('life', 100, 2)]),
@@ -66,10 +66,10 @@ PROPS = {
         explanation='guard theorem for every state and byte string (Props.C02: anything delivered or acted upon passed parse, key-window, MAC over exactly the received authenticated bytes, and counter checks; every failure case returns nothing and changes nothing); Go oracle injects mutated, truncated, forged and replayed data messages into live sessions at random ratchet positions',
         assumptions=['a MAC valid under an undisclosed key was produced by the peer (HMAC unforgeability, ideal crypto)', CRYPTO_ASSUME]),
     'C06': dict(
-        module='Props.C06', level='proof',
+        module='Props.C06', extra_modules=['Props.C06Unbind'], level='proof',
         profiles=dict(quick=[('reject', 160, 1)], thorough=[('reject', 1000, 8), ('tags', 100, 2)]),
         explanation='exact final state of every rejection case of a data message, of foreign-instance and other-version messages (Props.C06: state unchanged, so every continuation is identical); for rejected AKE traffic the twin-run Go oracle runs the same genuine traffic with and without the rejected message and compares all plaintexts, errors, events and IsEncrypted values',
-        assumptions=['behavioural equivalence after rejected AKE messages is decided by the twin-run oracle, not a theorem', 'known finding: version commit by a rejected first message']),
+        assumptions=['behavioural equivalence of every continuation after rejected AKE messages is decided by the twin-run oracle; the theorems give the exact frame of what a rejected or ignored message may change', 'a rejected message that arrives as the final fragment of a stream keeps the version / peer instance the accepted fragments before it have bound (fragments are accepted, not rejected, when they arrive)']),
     'C11': dict(
         module='Props.C11', level='proof',
         profiles=dict(quick=[('smp', 40, 1)], thorough=[('smp', 300, 8)]),
